@@ -2,6 +2,11 @@ package h
 
 import (
 	"fmt"
+
+	"github.com/kelindar/bitmap"
+	"github.com/kelindar/column"
+	"github.com/kelindar/column/commit"
+
 	"math/rand"
 	"runtime"
 	"runtime/debug"
@@ -21,13 +26,32 @@ type ParProfile struct {
 	Txns    int
 	Blocks  int
 	PMerge  float64
+	Snap    bool // a snapshot is taken beside the writers (restored into a fresh collection afterwards)
+}
+
+// probeCol is a column of the harness's own (the library accepts any implementation of its Column interface): it holds
+// nothing, and its Snapshot method - which the library calls while it writes a block, inside that block's read latch - logs
+// the block. Under real parallelism this is the only exact record of WHEN a block was written relative to the commits applied
+// to it (which the in-latch logger records inside the same block's write latch).
+type probeCol struct{ w *World }
+
+func (p *probeCol) Grow(uint32)                        {}
+func (p *probeCol) Apply(commit.Chunk, *commit.Reader) {}
+func (p *probeCol) Value(uint32) (interface{}, bool)   { return nil, false }
+func (p *probeCol) Contains(uint32) bool               { return false }
+func (p *probeCol) Index(commit.Chunk) bitmap.Bitmap   { return nil }
+func (p *probeCol) Snapshot(chunk commit.Chunk, _ *commit.Buffer) {
+	if p.w.Par {
+		p.w.T.Log(Ev{"e": "snap", "t": p.w.T.Actor(), "at": "read", "b": int(chunk)})
+	}
 }
 
 func ParProfileFor(name string, seed int64) ParProfile {
 	r := rand.New(rand.NewSource(seed ^ 0x9a7))
 	p := ParProfile{Name: name, Writers: 4 + r.Intn(3), Txns: 30, Blocks: 2 + r.Intn(2), PMerge: 0.8}
+	p.Snap = name == "c08"
 	switch name {
-	default: // c09: concurrent merges in one and several blocks: numbers, strings, records; commutative and order-sensitive
+	default: // c09 (and c08: the same writers beside a snapshot): concurrent merges in one and several blocks: numbers, strings, records; commutative and order-sensitive
 		p.Cols = []ColDesc{
 			// (no affine merge here: without the scheduler nothing bounds how often it is applied between two puts)
 			{"a", "int", []string{"add", "sat"}[r.Intn(2)], []string{"int", "int16", "int32", "int64", "uint16", "uint32", "uint64", "float32", "float64"}[r.Intn(9)]},
@@ -53,12 +77,26 @@ func RunPar(seed int64, p ParProfile) (out []Ev) {
 	for _, d := range p.Cols {
 		P.CreateColumn(d)
 	}
+	if p.Snap {
+		P.C.CreateColumn("zprobe", &probeCol{w})
+	}
 	InstallSeqHook(w)
 	// rows: two per block, next to the block boundaries
 	P.BulkInsert(p.Blocks * 16384) // completely full: the next insert takes the offset freed just before
 	var rows []uint32
+	at := [][]uint32{}
 	for b := 0; b < p.Blocks; b++ {
-		for _, o := range []uint32{uint32(b)*16384 + 5, uint32(b+1)*16384 - 9} {
+		at = append(at, []uint32{uint32(b)*16384 + 5, uint32(b+1)*16384 - 9})
+	}
+	if p.Snap {
+		// beside a snapshot all the rows are in ONE block: the order in which commits reach the recorder is then the order of
+		// that block's latch, which the in-latch logger records exactly (commits to different blocks reach the recorder in an
+		// order nothing observes, and Restore replays them in that order)
+		hot := uint32(rnd.Intn(p.Blocks))
+		at = [][]uint32{{hot*16384 + 5, hot*16384 + 700, hot*16384 + 9000, (hot+1)*16384 - 9}}
+	}
+	for _, os := range at {
+		for _, o := range os {
 			P.BulkDelete(o, o)
 			P.Txn("m", func(x *Tx) error {
 				at, _ := x.Insert([]W{{"a", "put", 1}, {"y", "put", 1}, {"s", "put", []int{0}}}, false)
@@ -76,7 +114,53 @@ func RunPar(seed int64, p ParProfile) (out []Ev) {
 	atomic.StoreInt32(&MergeYield, 1)
 	defer atomic.StoreInt32(&MergeYield, 0)
 	var wg sync.WaitGroup
-	var crashed int32
+	var crashed, snapDone int32
+	var gate sync.RWMutex
+	srnd := rand.New(rand.NewSource(seed ^ 0x5a5a)) // used by the snapshot goroutine only
+	if p.Snap {
+		// the snapshot protocol's points as the snapshot goroutine passes them (no lock held there): the recorder installed,
+		// the header written, every block written (recorder still installed), recorder detached
+		column.VerifYield = func(point string, _ *column.Txn, chunk uint32) {
+			if point == "snap.opened" || point == "snap.block" || point == "snap.closing" {
+				// (no lock is held at these points: a snapshot goroutine that is slow here lets commits through between the blocks)
+				time.Sleep(time.Duration(srnd.Intn(300)) * time.Microsecond)
+			}
+			switch point {
+			case "snap.opened", "snap.copying":
+				w.SnapHook(point, chunk)
+			case "snap.block":
+				if chunk == 0 {
+					w.SnapHook(point, chunk)
+				}
+			case "snap.closing":
+				// the detaching of the recorder is not synchronised with the block latches: it gets an exact place in the trace
+				// by letting the transactions in flight finish and holding new ones back until it is done
+				gate.Lock()
+				w.T.Log(Ev{"e": "snap", "t": w.T.Actor(), "at": "allread"})
+			}
+			if point == "snap.copying" {
+				gate.Unlock()
+			}
+		}
+		defer UninstallHook()
+		wg.Add(1)
+		go func() {
+			defer wg.Done()
+			w.T.Register("sn")
+			defer w.T.Unregister()
+			defer atomic.StoreInt32(&snapDone, 1)
+			defer func() {
+				if r := recover(); r != nil {
+					atomic.StoreInt32(&crashed, 1)
+					w.T.Log(Ev{"e": "panic", "t": "sn", "what": fmt.Sprint(r), "stack": string(debug.Stack())})
+				}
+			}()
+			time.Sleep(time.Duration(rnd.Intn(1500)) * time.Microsecond)
+			P.Snapshot("sn", "f1", nil)
+		}()
+	} else {
+		snapDone = 1
+	}
 	for g := 0; g < p.Writers; g++ {
 		wg.Add(1)
 		name := fmt.Sprintf("w%d", g+1)
@@ -91,7 +175,14 @@ func RunPar(seed int64, p ParProfile) (out []Ev) {
 					w.T.Log(Ev{"e": "panic", "t": name, "what": fmt.Sprint(r), "stack": string(debug.Stack())})
 				}
 			}()
+			after := 0 // (beside a snapshot: until it has returned and two transactions more, at least 6 and at most p.Txns)
 			for i := 0; i < p.Txns && atomic.LoadInt32(&crashed) == 0; i++ {
+				if p.Snap && i >= 6 && atomic.LoadInt32(&snapDone) == 1 {
+					if after++; after > 2 {
+						break
+					}
+				}
+				gate.RLock()
 				P.Txn(name, func(x *Tx) error {
 					for k := 0; k < 1+lr.Intn(3); k++ {
 						o := rows[lr.Intn(len(rows))]
@@ -118,6 +209,7 @@ func RunPar(seed int64, p ParProfile) (out []Ev) {
 					}
 					return nil
 				})
+				gate.RUnlock()
 			}
 		}()
 	}
@@ -140,6 +232,15 @@ func RunPar(seed int64, p ParProfile) (out []Ev) {
 	defer UninstallHook()
 	if atomic.LoadInt32(&crashed) == 0 {
 		P.Dump(1)
+		if _, ok := w.Blobs["f1"]; ok && p.Snap {
+			S := w.NewColl("S1", 64, "log", 0)
+			for _, d := range p.Cols {
+				S.CreateColumn(d)
+			}
+			S.C.CreateColumn("zprobe", &probeCol{w})
+			S.Restore("rs", "f1", -1)
+			S.Dump(1)
+		}
 	}
 	return w.T.Finish()
 }
